@@ -32,7 +32,7 @@ ASSUMPTIONS = ['model of the parser stack (frozen, validated separately) and of 
                'stop_upon_closing_brace restricted to the documented closing braces } ] ) > or an explicit pair of single characters',
                'custom parsing_state arguments restricted to the walker default state and its in_math_mode=True sub-context',
                'argument kinds outside the parser model (e{..}, AnyDelimited*) do not occur in the contexts used']
-PARTIAL = ['C16_legacy_args_equiv_partial']
+PARTIAL = ['C16_legacy_args_equiv_partial', 'C16_legacy_args_equiv_run_partial']
 REFUTED = []
 CASE_TIMEOUT = 20.0
 ALWAYS_SEARCH = False
@@ -518,6 +518,9 @@ def _oracle_pos(w, ps, d, pos):
                 return None
         else:
             nn = R[1]
+            if nn is None and not tol:
+                # premise [reader_premises] of C16_legacy_args_equiv_partial, checked on the real code
+                return _fail('strict-expression-parser-returned-no-node', pos)
         if L[0] != 'ok':
             return _fail('get_latex_expression-fails-but-new-succeeds', pos, legacy=repr(L[1])[:200])
         node, p, l = L[1]
@@ -588,6 +591,8 @@ def _cmp_node_result(name, L, R, pos, none_result, tol):
         return _fail(name + '-fails-but-new-succeeds', pos, legacy=repr(L[1])[:200])
     nn, cur = R[1], R[2]
     if nn is None:
+        if cur != pos and not tol:
+            return _fail(name + '-absent-but-reader-moved', pos, reader=cur)
         exp = none_result()
         if L[1] != exp:
             return _fail(name + '-empty-result-differs', pos, legacy=repr(L[1])[:200], expected=repr(exp))
